@@ -60,6 +60,9 @@ def bump (c : Cfg) (s : St) (δ : Rat) : St :=
   let s1 := { s with cost := max 0 (s.cost + δ) }
   if absQ (s1.cost - s1.last) > c.threshold then recalc c s1 else s1
 
+/-- does `bump_cost(δ)` in state `s` re-evaluate (the strict drift test)? -/
+def drifts (c : Cfg) (s : St) (δ : Rat) : Prop := absQ (max 0 (s.cost + δ) - s.last) > c.threshold
+
 inductive Op where
   | bump (δ : Rat)          -- explicit `bump_cost(δ)`, δ of either sign
   | recalc                  -- explicit `recalc_concurrency()`
